@@ -145,7 +145,7 @@ theorem recorded_vector_encodings_unchanged (k : Sc) (vs : List Val)
     (h : vs.length * k.width ≤ 65535) :
     encodeVecRaw k vs = encodeA (.vec (.sc k)) (.list vs) := by
   have hl : (vs.flatMap fun v => leBytes k.width v.bits).length ≤ u16 (vs.length * k.width) := by
-    rw [flatMap_leBytes_length, u16_of_le h] <;> exact Nat.le_refl _   -- (`rw` closes `n ≤ n` itself once Mathlib's `@[refl]` is in scope)
+    rw [flatMap_leBytes_length, u16_of_le h]; exact Nat.le_refl _
   simp only [encodeVecRaw, encodeA, Val.items, dumpData]
   rw [List.take_of_length_le hl]
   simp only [dumpScalar_eq]
